@@ -279,8 +279,8 @@ class Scenario(object):
 
 def tiers(tier):
     if tier == 'quick':
-        return [('exact3', Scenario(3, ['a', 'b', 'c', 'd', 'e', 'f', 'g'], comps=('c11', 'n0'), data=(1, 2)), 5),
-                ('detour', Scenario(3, ['a', 'x', 'y', 'b'], comps=('c10',), data=(1,), delay=False), 6)]
+        return [('exact3', Scenario(3, ['a', 'b', 'c', 'd', 'e', 'f', 'g'], comps=('c11', 'n0'), data=(1, 2)), 6),
+                ('detour', Scenario(3, ['a', 'x', 'y', 'b'], comps=('c10',), data=(1,), delay=False), 7)]
     return [('exact3', Scenario(3, ['a', 'b', 'c', 'd', 'e', 'f', 'g'], comps=('c11', 'n0', 'c20'), data=(0, 1, 2)), 6),
             ('exact4', Scenario(4, ['a', 'b', 'c', 'd', 'e', 'f', 'g', 'h', 'i', 'j'], comps=('c11',), data=(1, 3)), 5),
             ('detour', Scenario(3, ['a', 'x', 'y', 'b', 'e'], comps=('c10', 'c01'), data=(1, 2)), 7)]
